@@ -214,7 +214,8 @@ def _freed_slot_indexing(rep, P: str, rel: str, construct: str, fn: ast.Function
 
 def rebuild_rules(repo: Repo, rep, P: str):
     sv = repo.cls("SunVoxReader", module="rv.readers.sunvox")
-    fn = repo.own_method(sv, "process_end_of_file")
+    from .. import inline
+    fn = inline.normalize(repo, sv, repo.own_method(sv, "process_end_of_file"), aliases=True)
     rel = sv.file.rel
     construct = f"{rel}:SunVoxReader.process_end_of_file"
     rep.func("rv.readers.sunvox.SunVoxReader.process_end_of_file")
